@@ -1259,6 +1259,9 @@ impl<'a> CompilerState<'a> {
                     let mut start = 0;
                     let mut var_const = var_const_ex;
                     let mut set_const = set_const_ex;
+                    // The memory class of the declaration; an address above $FF changes it for this
+                    // declarator only
+                    let mut memory = memory;
                     for p in pair.into_inner() {
                         match p.as_rule() {
                             Rule::pointer => {
